@@ -199,18 +199,14 @@ func deleteHonoursCondition(c *Ctx, rule string) {
 		return
 	}
 	c.Analysed(fnName(id))
-	if len(id.Params) < 4 {
-		c.Unresolved(rule, "ctree.(*Tree).internalDelete parameters (subpath, condition, f, …)")
-		return
-	}
-	condP, fP := ssa.Value(param(id, 2)), ssa.Value(param(id, 3))
-	isCond := func(ev *Ev) bool { return strings.HasPrefix(ev.Label, "call:dyn:") && ev.Fn.V == condP }
-	isF := func(ev *Ev) bool { return strings.HasPrefix(ev.Label, "call:dyn:") && ev.Fn.V == fP }
+	roles := delRolesOf(id)
+	isCond := func(ev *Ev) bool { return strings.HasPrefix(ev.Label, "call:dyn:") && roles.cond(ev.Fn.V) }
+	isF := func(ev *Ev) bool { return strings.HasPrefix(ev.Label, "call:dyn:") && roles.f(ev.Fn.V) }
 	n := 0
 	for _, condVal := range []bool{false, true} {
 		e := &PPA{
 			Cond: func(e *PPA, st *State, rv RV) (bool, bool) {
-				if call, ok := rv.V.(*ssa.Call); ok && call.Call.Value == condP {
+				if call, ok := rv.V.(*ssa.Call); ok && roles.cond(call.Call.Value) {
 					return condVal, true
 				}
 				return false, false
